@@ -89,6 +89,8 @@ def run_doc(case, res):
 
 
 def run_case(case, res):
+    if case.get("kind") == "repotests":
+        return run_repotests({}, res)
     if case.get("kind") == "doc":
         return run_doc(case, res)
     if case.get("kind") == "onestep":
@@ -106,6 +108,7 @@ def shards(tier, seed):
     out = [{"name": f"hist{i}", "kind": "hist", "i": i, "count": cnt, "budget_s": 100 if tier == "quick" else 1500}
            for i in range(NSHARDS)]
     out.append({"name": "docs", "kind": "docs", "i": 0, "count": 60 if tier == "quick" else 600, "budget_s": 60})
+    out.append({"name": "repotests", "kind": "repotests", "i": 0, "budget_s": 300, "cov": False})
     bound, tb = (4, 3) if tier == "quick" else (5, 4)
     out += [{"name": f"one{i}", "kind": "one", "i": i, "bound": bound, "typed_bound": tb,
              "budget_s": 200 if tier == "quick" else 3000} for i in range(NSHARDS)]
@@ -121,7 +124,37 @@ def gen_cases(spec, profile):
                "steps": rng.choice([5, 10, 20, 30, 40]), "hostile": True, "allow_unspec": True}
 
 
+def run_repotests(spec, res):
+    """The repository's own test-suite as an additional workload under the C01-C03 monitors."""
+    import json, os, subprocess, sys, tempfile
+    from .. import REPO, VERIF
+
+    out = tempfile.mktemp(prefix="vmon-wf-", suffix=".json")
+    env = dict(os.environ, VMON_WF_OUT=out, PYTHONPATH=VERIF + os.pathsep + REPO, PYTHONHASHSEED="0")
+    try:
+        r = subprocess.run([sys.executable, "-m", "pytest", "-q", "-p", "no:cacheprovider", "-o", "addopts=", "-p", "vmon.pytest_wf",
+                            "--timeout=600", "tests"], cwd=REPO, env=env, capture_output=True, text=True, timeout=900)
+        data = json.load(open(out))
+    except Exception as e:
+        res.inconc(f"repository tests under monitors could not be run: {e!r}")
+        return
+    finally:
+        if os.path.exists(out):
+            os.unlink(out)
+    res.count("repotests_calls_monitored", data["counters"]["calls"])
+    res.count("repotests_exitstatus", data["exitstatus"])
+    case = {"kind": "repotests"}
+    res.case(case, nontrivial=data["counters"]["calls"] > 100)
+    for f in data["findings"]:
+        if f["tag"].split(":")[0] == OWN:
+            res.violation(case, f"[{f['tag']}] while running {f['test']}, after {f['after']}: {f['msg']}")
+        else:
+            res.count(f"context_finding:{f['tag']}")
+
+
 def run_shard(spec, res):
+    if spec["kind"] == "repotests":
+        return run_repotests(spec, res)
     if spec["kind"] == "docs":
         rng = rng_for(spec["seed"], "c03-docs")
         for j in range(spec["count"]):
